@@ -81,6 +81,16 @@ example : linkedMods (run (exH.take 5)) (run (exH.take 6)) (some .interp) =
         iface := some .interp },
       { id := 5, imps := [], iface := some .interp } ] := by decide
 
+/-- an external registered with address NULL (`MIR_load_external (ctx, name, NULL)`, withdrawing an
+earlier one) IS the last definition: the import is bound to it — not handed to the resolver — and
+calling through it kills the process -/
+def nullH : List Op :=
+  [.loadExternal 5 101, .loadExternal 5 0, .loadModule 3 [.imp 5 .ptr], .link (some .gen) (fun _ => some 205)]
+
+example : lastDef (nullH.take 3) 5 = some (.ext 0) ∧ (run nullH).err = none ∧
+    (run nullH).done.map (·.binds) = [[(5, .ext 0)]] ∧
+    (run (nullH ++ [.call])).err = some .undefinedInterface := by decide
+
 /-! ## 3. imports without definition -/
 
 /-- a successful link binds an import that has no definition to what the resolver answered -/
@@ -405,11 +415,13 @@ theorem inline_follows_binding (m : Mod) (n : Name) (id : Nat) (hfresh : m.inl =
 right after it, the entry function of any module that was waiting in the queue and has not been
 through a NULL-interface link before (`m.inl = []`) yields, for every import, the value of the
 definition loaded last before the link (or of the resolver's address): the version that runs is
-the version the property names.  `m2` is the module's state after the link and the call. -/
+the version the property names (`≠ .ext 0`: unless that definition is an external registered with
+address NULL, through which nothing can be called or read).  `m2` is the module's state after the
+link and the call. -/
 theorem observed_spec (h : List Op) (k : Nat) (i : Iface) (res : Resolver)
     (hk : h[k]? = some (.link (some i) res)) (hok : (run (h.take (k + 1))).err = none) :
     Forall2 (fun m m2 => m.inl = [] → m2.id = m.id ∧
-        ∀ n u, m.imps.lookup n = some u →
+        ∀ n u, m.imps.lookup n = some u → wantedAfter (h.take k) res n ≠ some (.ext 0) →
           observeImp (callAll (run (h.take (k + 1)))) m2 (n, u) =
             (wantedAfter (h.take k) res n).map Def.value)
       (run (h.take k)).queue
